@@ -49,7 +49,9 @@ Inductive xcase :=
 | HSess (h : list (hrec sop sout)) (w : list nat)
 | HReg (h : list (hrec rop rout)) (w : list nat)
 | HInbox (h : list (hrec iop iout)) (w : list nat)
-| HMsg (h : list (hrec mop mout)) (w : list nat).
+| HMsg (h : list (hrec mop mout)) (w : list nat)
+(* provider level, over the in-memory base: C11's provider-level CONTRACT machine (Close deletes) *)
+| HProv (h : list (hrec pop pout)) (w : list nat).
 
 Definition check_xcase (x : xcase) : bool :=
   match x with
@@ -59,6 +61,7 @@ Definition check_xcase (x : xcase) : bool :=
   | HReg h w => valid_linearization reg_step rout_eqb 0 h w
   | HInbox h w => valid_linearization inbox_step iout_eqb [] h w
   | HMsg h w => valid_linearization msg_step mout_eqb [] h w
+  | HProv h w => valid_linearization (pspec_step false) pout_eqb [] h w
   end.
 
 Fixpoint mismatches_from (i : nat) (cs : list xcase) : list nat :=
